@@ -338,8 +338,10 @@ func (s *Service) respForward(ctx context.Context, target, last boson.Address, r
 	for _, v := range res {
 		if !v.Src.Equal(s.self) {
 			if !v.Src.MemberOf(skip) {
-				// forward
-				s.doRouteResp(ctx, v.Src, target, last, resp, nil)
+				// forward; doRouteResp appends this node to the paths of the
+				// message it is given, so every requester gets its own copy
+				fwd := *resp
+				s.doRouteResp(ctx, v.Src, target, last, &fwd, nil)
 				skip = append(skip, v.Src)
 			}
 		} else if v.ResCh != nil {
